@@ -323,7 +323,7 @@ def prepare_xcrates(unit):
         write_if_changed(os.path.join(d, "src", "lib.rs"), text)
         name = "xk_" + re.sub(r"\W", "_", unit.id + "_" + xc.get("name", "x"))
         write_if_changed(os.path.join(d, "Cargo.toml"),
-                         ("[package]\nname = \"%s\"\nversion = \"0.0.0\"\nedition = \"2021\"\n\n[lib]\npath = \"src/lib.rs\"\n\n[dependencies]\n" % name) + "\n".join(xc.get("deps", [])) + "\n\n[workspace]\n\n[lints.rust]\nunexpected_cfgs = { level = \"allow\", check-cfg = ['cfg(kani)'] }\n")
+                         ("[package]\nname = \"%s\"\nversion = \"0.0.0\"\nedition = \"%s\"\n\n[lib]\npath = \"src/lib.rs\"\n\n[dependencies]\n" % (name, xc.get("edition", "2021"))) + "\n".join(xc.get("deps", [])) + "\n\n[workspace]\n\n[lints.rust]\nunexpected_cfgs = { level = \"allow\", check-cfg = ['cfg(kani)'] }\n")
         xc["_extracted"] = extracted
 
 
